@@ -111,6 +111,17 @@ def main():
     out["nml"] = nml_tab
     out["dangling_specs"] = dangling
     out["binding_classes"] = sorted(all_names)
+    # the public export list: `from .nml.nml import *` in neuroml/__init__.py only sees what __all__ names
+    exported = None
+    for n in nml_tree.body:
+        if isinstance(n, ast.Assign) and len(n.targets) == 1 and isinstance(n.targets[0], ast.Name) and n.targets[0].id == "__all__":
+            exported = [e.value for e in n.value.elts if isinstance(e, ast.Constant)] if isinstance(n.value, (ast.List, ast.Tuple)) else None
+    init_src = open(os.path.join(REPO, "neuroml", "__init__.py")).read()
+    star = bool(re.search(r"^from \.nml\.nml import \*", init_src, re.M))
+    if exported is None:
+        # no __all__: a star import exports every public name
+        exported = sorted(all_names)
+    out["exported_classes"] = sorted(x for x in exported if x in all_names) if star else []
     # ---- versions / schema names ------------------------------------------------------------
     vt = ast.parse(open(os.path.join(REPO, "neuroml", "__version__.py")).read())
     cur = None
